@@ -182,8 +182,10 @@ class Ctx:
             cmd += extra
         cmd.append(module + ".tla")
         env = dict(os.environ)
-        if jvm:
-            env["JAVA_TOOL_OPTIONS"] = jvm
+        # TLC leaves an empty temporary directory behind per run: keep it inside the scratch directory of this check
+        jtmp = os.path.join(self.scratch, "jtmp")
+        os.makedirs(jtmp, exist_ok=True)
+        env["JAVA_TOOL_OPTIONS"] = ((jvm + " ") if jvm else "") + "-Djava.io.tmpdir=" + jtmp
         t0 = time.time()
         rc, out = sh(cmd, cwd=d, env=env)
         shutil.rmtree(meta, ignore_errors=True)
